@@ -1,23 +1,32 @@
 /-
   Model of internal/formatter/number_format.go (ParseNumberFormat, extractNumberPart,
-  FormatNumber) and internal/formatter/formatter.go (FormatDocumentWithOptions,
-  trimTrailingSpacesEdits, extractCommodityFormats, formatTransactionWithOpts,
-  calculateAccountDisplayLength, CalculateAlignmentColumn,
-  calculateGlobalAlignmentColumnWithIndent, CalculateAlignmentWithGlobal,
+  FormatNumber, formatIsFaithful) and internal/formatter/formatter.go
+  (FormatDocumentWithOptions, trimTrailingSpacesEdits, extractCommodityFormats,
+  formatTransactionWithOpts, calculateAccountDisplayLength, CalculateAlignmentColumn,
+  calculateGlobalAlignmentColumnWithIndent, calculateAlignmentWithGlobal,
   calculateAmountCostLen, formatPostingWithOpts, writeAmountWithSign, commodityText,
-  formatAmountQuantity, formatIsFaithful), of server.formatText (the part of Server.Format after the
-  document, workspace formats and settings have been looked up),
-  of the three shopspring/decimal methods they call (Round, StringFixed, String) and of
-  lsputil.PositionMapper.LineUTF16Len as the formatter uses it.
+  formatAmountQuantity), of server.formatText (the part of Server.Format after the document,
+  the workspace formats and the settings have been looked up), of the shopspring/decimal
+  methods they call (Round, StringFixed, String, Equal, Truncate) and of
+  lsputil.PositionMapper.LineUTF16Len.
 
-  Input of the model: the syntax tree the real parser produced (`HL.Ast.Journal`), the text
-  (bytes), the commodity formats (Go: nil map or a map) and the options.  `Server.Format`
-  is `FormatDocumentWithOptions (parse doc) doc (workspace formats or nil) settings`.
+  The code modelled is the REPAIRED formatter (repo_patches/fix-format-1..5):
+    1 a posting comment is written back as "  ;" ++ comment (no blank added per run);
+    2 a commodity format is used only if formatIsFaithful (no rounding, no number the parser's
+      single-mark rule would misread), otherwise the original spelling is kept;
+    3 lines on which the parser reported an error are neither rebuilt nor trimmed
+      (Options.SkipLines, filled by server.formatText);
+    4 a commodity that stood in double quotes in the source is written in double quotes;
+    5 LineUTF16Len does not count the CR of a CRLF terminator.
+
+  Input of the model: the syntax tree and the parse errors the real parser produced
+  (`HL.Ast.Journal`, `ParseError`), the text (bytes), the commodity formats (Go: nil map or a
+  map) and the options.
 
   Conventions: Go strings are `Bytes`; Go `int`s that are provably non-negative in the code
   (columns, lengths) are `Nat`; `NumberFormat.DecimalPlaces` is a `Nat` (the only producer,
   ParseNumberFormat, yields a byte count); Go maps are association lists with unique keys
-  (`Map.insert` overwrites).
+  (`Formats.insert` overwrites).
 -/
 import HL.Model.Ast
 import HL.Model.FmtText
